@@ -269,6 +269,7 @@ func knobsFor(prop string, faulty bool) knobs {
 		if faulty {
 			k.cancellers = 25
 			k.pDeadline = 10
+			k.doneOps = 20 // a watcher that is finished keeps its place and its last value in the stack
 		}
 	case "C04":
 		k.pSuppress = 30
@@ -344,6 +345,7 @@ func knobsFor(prop string, faulty bool) knobs {
 		k.doneOps = 35
 		k.mutator = true
 		k.share = 60
+		k.blank = 25 // (a stack in which no source sets anything is the defaults alone)
 		k.watchMin, k.watchMax = 2, 4
 		k.readers = [2]int{0, 1}
 		if faulty {
